@@ -247,7 +247,7 @@ func drawC18(t *rapid.T) C18Case {
 		c.Queries = append(c.Queries, sc.Schema.DrawPanelQuery(t, closure))
 	}
 	c.Dirty = rapid.SampledFrom([]string{"authorize", "query"}).Draw(t, "dirty")
-	c.Bad = rapid.SampledFrom(c18Bad).Draw(t, "bad")
+	c.Bad = c18Bad[spreadInt(t, "bad", len(c18Bad))]
 	c.Bit = rapid.IntRange(0, 1<<14).Draw(t, "bit")
 	if c.Bad == "random" {
 		c.Raw = rapid.SliceOfN(rapid.Byte(), 0, 40).Draw(t, "raw")
